@@ -11,6 +11,8 @@ CONSTANTS
   CRProg <- U_CR
   Forms = {"fresh", "once"}
   Colls = {"k1", "k2"}
+  LAs <- U_LAs
+  DropOn = TRUE
   QuitOn = TRUE
   QuitDeferred = TRUE
   DefCap = 4
@@ -23,4 +25,5 @@ INVARIANT TypeOK
 INVARIANT Immediate
 INVARIANT WiredOK
 INVARIANT LifeOK
+INVARIANT OptsOK
 CHECK_DEADLOCK FALSE
